@@ -24,7 +24,9 @@ TRUSTED = ["model AdHoc.lean (invocation builder, result decoder) hand-written; 
 PROBE = str(Path(__file__).resolve().parent / "probe.sh")
 CANARY = b"CANARY-FROM-TEMPREN-STDIN\n"
 HOSTILE = ["", " ", "a b", "'q'", '"dq"', "$(touch x)", "`id`", "*", "?.txt", ";ls", "-n", "--help", "é中",
-           "a\\b", "x\ny", "$HOME", "~", "&", "|", ">out", "a=b", "%s", "{}", "\t"]
+           "a\\b", "x\ny", "$HOME", "~", "&", "|", ">out", "a=b", "%s", "{}", "\t",
+           # quote marks at the very end / beginning, alone, doubled (whichever mark delimits the literal)
+           "--title='draft'", 'say "hi"', "'", '"', "''", '""', "it's", "'lead", '"lead', "end\\'", 'end\\"']
 
 
 def gen_arg(rng):
@@ -151,7 +153,9 @@ def classify_tag(case, obs):
 
 # ------------------------------------------------------------------ CLI level
 def esc_string(s):
-    return '"' + s.replace("\\", "\\\\").replace('"', '\\"') + '"'
+    # either quote mark delimits (chosen from the argument itself, so that a case prints the same way every time)
+    q = "'" if len(s) % 2 else '"'
+    return q + s.replace("\\", "\\\\").replace(q, "\\" + q) + q
 
 
 def gen_cli(rng, n, tier):
